@@ -1,0 +1,53 @@
+//go:build verif
+// +build verif
+
+package subscribe
+
+import (
+	"reflect"
+	"sync/atomic"
+)
+
+// Verification hooks: only compiled with the build tag "verif".
+
+var verifAppliedFn atomic.Value // of func(kind, key string, notifier INotifier)
+
+// VerifSetApplied installs a callback that process() calls at the end of each
+// iteration, i.e. right after a subscription ("sub") or an unsubscription
+// ("unsub"; "unsub-miss" when the key has no subscribers) took effect. The
+// callback runs on the process goroutine and may block it.
+func VerifSetApplied(f func(kind, key string, notifier INotifier)) {
+	verifAppliedFn.Store(f)
+}
+
+func verifApplied(kind, key string, notifier INotifier) {
+	if f, _ := verifAppliedFn.Load().(func(kind, key string, notifier INotifier)); f != nil {
+		f(kind, key, notifier)
+	}
+}
+
+// VerifPending returns how many subscriptions and unsubscriptions are queued
+// and not yet taken by process(): the total length of the channels of subPub.
+func VerifPending(s SubPub) int {
+	v := reflect.ValueOf(s.(*subPub)).Elem()
+	n := 0
+	for i := 0; i < v.NumField(); i++ {
+		if f := v.Field(i); f.Kind() == reflect.Chan {
+			n += f.Len()
+		}
+	}
+	return n
+}
+
+// VerifSubscribers returns, per key, the notifiers currently registered (in order, with duplicates).
+func VerifSubscribers(s SubPub) map[string][]INotifier {
+	sp := s.(*subPub)
+	out := map[string][]INotifier{}
+	sp.keyToNotifier.Range(func(k, v interface{}) bool {
+		for _, si := range v.([]*subInfo) {
+			out[k.(string)] = append(out[k.(string)], si.notifier)
+		}
+		return true
+	})
+	return out
+}
